@@ -40,8 +40,10 @@ def budget(tier):
 def profile(ci):
     return gm.make_profile(cfg_style='dropbox', n_ns=(1, 4), p_doc=0.5, p_hostile_doc=0.05, p_foreign=0.5,
                            p_examples=0.0, n_routes=(1, 5), p_default=0.5,
-                           route_arg_kinds=('struct', 'union', 'void', 'alias'),
-                           route_result_kinds=('struct', 'union', 'void', 'alias'), route_alias_user_only=True,
+                           route_arg_kinds=('struct', 'union', 'void', 'alias') if ci % 3 else
+                           gm.DEFAULT_PROFILE['route_arg_kinds'],
+                           route_result_kinds=('struct', 'union', 'void', 'alias') if ci % 3 else None,
+                           route_alias_user_only=bool(ci % 3),
                            p_ts_bytes_default=0.1 if ci % 5 == 0 else 0.0,
                            p_three_part_field_ref=0.3 if ci % 7 == 0 else 0.0)
 
